@@ -283,8 +283,10 @@ def main(chk):
             dfd = nextfd
             live.add(dfd)
             nextfd += 1
-            idx = g.call('fd_readdir', [dfd, 0x7000, 512, 0, 0x7800])
-            checks.append(('errno', idx, 0, 'fd_readdir(live)'))
+            if r.random() < 0.5:
+                idx = g.call('fd_readdir', [dfd, 0x7000, 512, 0, 0x7800])
+                checks.append(('errno', idx, 0, 'fd_readdir(live)'))
+            # (otherwise the FIRST listing of the descriptor happens after the directory is gone)
             idx = g.call('path_remove_directory', [first_fd, 0x6000, 8])
             checks.append(('errno', idx, 0, 'path_remove_directory(listed directory)'))
             removed_dir = True
